@@ -275,9 +275,49 @@ def _gen_valid_sectors_task(sym):
     )
 
 
+def _init_charge_task(sym):
+    """AbelianArray.__init__: charge=None is inferred from the first stored sector (signed
+    combination, so that the stored sector conserves it) or is the identity when empty;
+    an explicit charge is kept."""
+    Q = "abelian_core.AbelianArray.__init__"
+
+    def body(it):
+        ctx = it.ctx
+        model = Model(it, sym)
+        x, n, inds, charge = mk_array(it, sym, model)
+        cls = it.get_class("abelian_core", "AbelianArray")
+        it.summaries["abelian_core.AbelianArray.get_class_symmetry"] = lambda it_, a, k: model.obj
+        sec = SymSeq(n, z3.Const("sector", z3.ArraySort(z3.IntSort(), ety(sym).sort())), ety(sym), "tuple")
+        j = z3.Int("j!ok")
+        ctx.assume(z3.ForAll([j], z3.Implies(z3.And(j >= 0, j < n), z3.And(*[ok_scalar(sym, v) for v in comps_of_term(sym, z3.Select(sec.arr, j))]))))
+        spec_arr = signed_lambda(sym, sec.arr, inds, "spec")
+        blk = SymObj(None, {}, tag="block")
+        # (a) inferred from the first sector
+        model.combine_args.clear()
+        obj = it.instantiate(cls, [], {"indices": inds, "blocks": {sec: blk}, "symmetry": "tok"})
+        got = obj.fields.get("_charge")
+        if len(model.combine_args) == 1:
+            lemma_LS_lin(it, sym, model.combine_args[0].arr, spec_arr, n, 1, "first_sector")
+            ctx.oblige(f"AbelianArray.__init__[{sym}].inferred_charge_is_conserved_by_first_sector", congr(sym, folds(sym, spec_arr, n), to_comps(sym, got)))
+            ctx.oblige(f"AbelianArray.__init__[{sym}].inferred_charge_canonical", z3.And(*[ok_scalar(sym, v) for v in to_comps(sym, got)]))
+        else:
+            ctx.oblige(f"AbelianArray.__init__[{sym}].infers_from_first_sector", False)
+        ctx.oblige(f"AbelianArray.__init__[{sym}].blocks_copied_into_new_dict", isinstance(obj.fields.get("_blocks"), dict) and list(obj.fields["_blocks"].items()) == [(sec, blk)])
+        # (b) no blocks: identity
+        obj2 = it.instantiate(cls, [], {"indices": inds, "symmetry": "tok"})
+        ctx.oblige(f"AbelianArray.__init__[{sym}].empty_array_gets_identity_charge", z3.And(*[v == 0 for v in to_comps(sym, obj2.fields.get("_charge"))]))
+        # (c) explicit charge kept
+        given = from_comps(sym, charge)
+        obj3 = it.instantiate(cls, [], {"indices": inds, "charge": given, "blocks": {sec: blk}, "symmetry": "tok"})
+        ctx.oblige(f"AbelianArray.__init__[{sym}].explicit_charge_kept", obj3.fields.get("_charge") is given)
+
+    return Task(f"C16.AbelianArray.__init__.charge.{sym}", ["C16", "C01"], [Q], body, assumes=["callee contracts of Symmetry.sign / combine", "fold lemma LS_lin"])
+
+
 def tasks():
     out = []
     for sym in SYMS:
+        out.append(_init_charge_task(sym))
         out.append(_is_valid_sector_task(sym))
         out.append(_gen_valid_sectors_task(sym))
     return out
